@@ -341,20 +341,29 @@ Proof.
 Qed.
 
 (* ------------------------------------------------------------------ the dynamic selection *)
-(* a for-each compiled as VecForLoop agrees with the characters only for the empty string *)
-Lemma dynamic_foreach_lemma cs : all_valid cs ->
-  (items (vm_for_each SelDynamic (utf8 cs)) = map encode cs <-> cs = []).
+(* the String arm of VecForLoop is the StringForLoop computation *)
+Lemma iterate_dyn_eq : forall fuel s off, iterate_dyn fuel s off = iterate fuel s off.
 Proof.
-  intros _. cbn [vm_for_each items]. split.
-  - intro H. destruct cs; [reflexivity|discriminate].
-  - intros ->. reflexivity.
+  induction fuel as [|k IH]; intros s off; [reflexivity|].
+  cbn [iterate_dyn iterate].
+  change (vec_for_loop_step_on_string s off) with (for_loop_step s off).
+  destruct (for_loop_step s off) as [[it off']|]; [rewrite IH|]; reflexivity.
 Qed.
 
-Lemma dynamic_foreach_refuted_lemma :
-  exists cs, all_valid cs /\ char_len (utf8 cs) = 5%nat
-             /\ length (items (vm_for_each SelDynamic (utf8 cs))) = 0%nat
-             /\ load_char (utf8 cs) 1 = LoadOk [0xC3; 0xA9].
-Proof.
-  exists [0x68; 0xE9; 0x6C; 0x6C; 0x6F]. split; [repeat constructor|].
-  vm_compute. repeat split; reflexivity.
-Qed.
+Lemma vm_for_each_any_sel k s : vm_for_each k s = for_each s.
+Proof. destruct k; [reflexivity|]. unfold vm_for_each, for_each. apply iterate_dyn_eq. Qed.
+
+Lemma iter_yields_any_lemma k cs : all_valid cs ->
+  vm_for_each k (utf8 cs)
+  = {| items := map encode cs; final_off := byte_len (utf8 cs); finished := true |}.
+Proof. intro V. rewrite vm_for_each_any_sel. exact (iter_yields_lemma cs V). Qed.
+
+(* the defect repaired by 8e1534c, kept as a lemma about the OLD arm (continue only for
+   ObjectKind::Vec): "he'llo" has 5 characters and s[1] works, the old loop yielded nothing *)
+Definition old_vec_for_loop_on_string (s : list N) : iter_result :=
+  {| items := []; final_off := 0; finished := true |}.
+Lemma old_dynamic_foreach_yielded_nothing :
+  let cs := [0x68; 0xE9; 0x6C; 0x6C; 0x6F] in
+  char_len (utf8 cs) = 5%nat /\ length (items (old_vec_for_loop_on_string (utf8 cs))) = 0%nat
+  /\ length (items (vm_for_each SelDynamic (utf8 cs))) = 5%nat.
+Proof. vm_compute. repeat split; reflexivity. Qed.
